@@ -145,9 +145,43 @@ def run_ble(case):
     return res
 
 
+def run_fatal_with_hello(case):
+    """The device's (acceptable) hello answer and fatal bytes arrive in ONE chunk: the connect call ends with the class
+    of that fatal cause -- the same class as when the fatal bytes arrive instead of the hello answer."""
+    base = case["base"]
+    frames = list(case["frames"])
+    a = life.run({**copy.deepcopy(base), "hello_extra": frames + list(case.get("more") or []), **({"hello_cuts": case["cuts"]} if case.get("cuts") else {}), "events": []})
+    b = life.run({**copy.deepcopy(base), "hello_extra": frames, "hello_replace": True, "events": []})
+    for o in (a, b):
+        if o.harness_error:
+            raise HarnessError(f"C09: {o.harness_error} in {case}")
+    res = CaseResult(nontrivial=True, classes=["fatal_bytes_in_the_hello_chunk"])
+    res.violations = life.oracle_c09(a) + life.oracle_c09(b)
+    oa, ob = _outcomes(a), _outcomes(b)
+    res.info = {"same_chunk": oa, "alone": ob}
+    if ob.get("main") in (None, "ok"):
+        raise HarnessError(f"C09: fatal frames {frames} alone did not fail the connect: {ob}")
+    if oa.get("main") != ob.get("main"):
+        res.violations.append(Violation(ID, f"c09:first-cause-masked:{'+'.join(frames)}-in-the-hello-chunk:main:{ob.get('main')}->{oa.get('main')}",
+                                        f"{frames} arriving instead of the hello answer ends connect with {ob.get('main')}; arriving in the same chunk as the hello answer it ends with {oa.get('main')}"))
+    return res
+
+
+def _fatal_with_hello_cases():
+    for noise in (False, True):
+        for login in (False, True):
+            for flow in ("connect", "full"):
+                for fr in (["reqenc"], ["garbage"], ["badproto"]):
+                    for more in ([], ["state"], ["discreq"], ["garbage"]):
+                        for cuts in (None, [3]):
+                            yield {"kind": "fatal_with_hello", "base": {"noise": noise, "login": login, "flow": flow, "K": 8.0, "final_at": 200.0}, "frames": fr, "more": more, **({"cuts": cuts} if cuts else {})}
+
+
 def run_case(case):
     if case.get("kind") == "ble":
         return run_ble(case)
+    if case.get("kind") == "fatal_with_hello":
+        return run_fatal_with_hello(case)
     if case.get("kind") == "graceful_then_fatal":
         return run_graceful_then_fatal(case)
     if case.get("kind") == "verdict_then_close":
@@ -400,6 +434,7 @@ def enumerated(tier):
     yield from _stream_cases()
     yield from _reconnect_cases()
     yield from _first_cause_cases(tier)
+    yield from _fatal_with_hello_cases()
     yield from _disconnect_during_hung_connect_cases()
     yield from _verdict_cases()
     # resolver x TCP matrix for one and two addresses
